@@ -38,6 +38,12 @@ int main(int argc, char **argv) {
     nums = realloc(nums, (size_t)len * sizeof *nums); nnums = 0; pos = 0;
     char *p = line + off;
     for (;;) { char *e; unsigned long v = strtoul(p, &e, 10); if (e == p) break; nums[nnums++] = v; p = e; }
+#ifdef TSV_NO_STATIC_ADD
+    // the static `ts_range_array_add` is not reachable under its usual name (renamed / inlined): the direct
+    // call sequences are skipped; `add` stays covered through ts_range_array_get_changed_ranges (symdiff lines)
+    // and through ts_tree_get_changed_ranges at system level
+    if (!strcmp(op, "add")) { printf("%s out=SKIP\n", id); continue; }
+#else
     if (!strcmp(op, "add")) {
       size_t k = nums[pos++]; TSRangeArray a = array_new(); TSRange r; int ok = 1;
       for (size_t i = 0; i < k && ok; i++) {
@@ -46,7 +52,9 @@ int main(int argc, char **argv) {
       }
       if (ok) print_ranges(id, &a); else printf("%s out=BADINPUT\n", id);
       array_delete(&a);
-    } else if (!strcmp(op, "isect")) {
+    } else
+#endif
+    if (!strcmp(op, "isect")) {
       size_t n = nums[pos++]; TSRangeArray a = array_new(); TSRange r; int ok = 1;
       for (size_t i = 0; i < n && ok; i++) { ok = rd_range(&r); if (ok) array_push(&a, r); }
       if (ok && pos + 3 == nnums) {
